@@ -71,6 +71,21 @@ class Step:
             return CMP[op](self.ev(t[1], env), self.ev(t[2], env))
         if op in ARI and len(t) == 3:
             return ARI[op](self.ev(t[1], env), self.ev(t[2], env))
+        if op in ('|', '&', '^', '<<', '>>', '%') and len(t) == 3:
+            a, b = self.ev(t[1], env), self.ev(t[2], env)
+            if isinstance(a, bool):
+                a = int(a)
+            if isinstance(b, bool):
+                b = int(b)
+            if not (isinstance(a, int) and isinstance(b, int)):
+                raise Unsupported('integer operator %s on %s, %s' % (op, a, b))
+            if op == '%':
+                if b == 0:
+                    raise Unsupported('modulo by zero')
+                return int(abs(a) % abs(b)) * (1 if a >= 0 else -1)         # C++ remainder: sign of the dividend
+            return {'|': a | b, '&': a & b, '^': a ^ b, '<<': a << b, '>>': a >> b}[op]
+        if op == '?:' and len(t) == 4:
+            return self.ev(t[2], env) if self.ev(t[1], env) else self.ev(t[3], env)
         if op == '&&':
             return bool(self.ev(t[1], env)) and bool(self.ev(t[2], env))
         if op == '||':
